@@ -771,8 +771,22 @@ def rule_propagation(model):
                                   ctx=fi)
     # InstanceDict takes its guard from the namespace
     init = model.func('_DocumentTemplate', 'InstanceDict.__init__')
-    src = ast.unparse(init.node)
-    if 'namespace.guarded_getattr' not in src:
+    nsp = init.params()[2] if len(init.params()) > 2 else None
+    takes = False
+    for n in own_nodes(init.node):
+        if isinstance(n, ast.Assign) and any(
+                isinstance(t, ast.Attribute) and t.attr in GUARD_ATTRS and
+                isinstance(t.value, ast.Name) and t.value.id == 'self'
+                for t in n.targets):
+            for x in ast.walk(n.value):
+                if _is_guard_source(x):
+                    base = x.value if isinstance(x, ast.Attribute) \
+                        else x.args[0]
+                    if isinstance(base, ast.Name) and base.id == nsp:
+                        takes = True
+                        r.instance(init.where, n, 'guard taken from the '
+                                   'namespace')
+    if not takes:
         r.finding(init.where, 'self.guarded_getattr = ...', 'InstanceDict '
                   'does not take its guard from the namespace',
                   node=init.node, ctx=init)
